@@ -2,6 +2,7 @@ package oracle
 
 import (
 	"fmt"
+	"maps"
 	"math"
 	"math/rand"
 	"reflect"
@@ -892,9 +893,10 @@ func checkC06(c *core.Case, v *view) Result {
 
 func init() {
 	register(&Property{
-		ID:    "C07",
-		Title: "Deterministic and side-effect free",
-		Count: counts(6000, 40000),
+		ID:     "C07",
+		Title:  "Deterministic and side-effect free",
+		Budget: 150, // 6 (16) repetitions of one call per case; hangs are C01's business, the budget only bounds a stuck worker
+		Count:  counts(6000, 40000),
 		Rule: "graphs from F3-F5, F11 plus the general mixture (ties, several reversed edges on one node, >= 2 self loops, >= 2 components) x all cells except greedy-random; " +
 			"every case is executed r times in one process (quick 6, thorough 16) and the canonical encodings (node order, ids, float bits, points, flags) are compared byte-wise; " +
 			"every worker is a fresh process, and the driver additionally re-executes a sample of cases in a second fresh process and compares digests; " +
@@ -961,11 +963,15 @@ func init() {
 					sizesCopy[k] = v
 				}
 			}
+			// the very map handed to WithNodeSize, and a copy of it
+			opts := c.Opts
+			opts.SizeMap = c.Opts.BuildSizeMap()
+			libSizesCopy := maps.Clone(opts.SizeMap)
 			var first string
 			var firstLayout = core.RunResult{}
 			panics := 0
 			for i := 0; i < reps; i++ {
-				res := core.Run(c.Edges, c.Opts)
+				res := core.Run(c.Edges, opts)
 				if res.Panic != nil {
 					panics++
 					continue
@@ -973,8 +979,8 @@ func init() {
 				if !reflect.DeepEqual(c.Edges, edgesCopy) {
 					return violated("C07/input-edges-modified", fmt.Sprintf("the caller's edge list changed: now %v, was %v", c.Edges, edgesCopy))
 				}
-				if !reflect.DeepEqual(c.Opts.Sizes, sizesCopy) {
-					return violated("C07/input-sizes-modified", "the caller's size map changed")
+				if !reflect.DeepEqual(c.Opts.Sizes, sizesCopy) || !reflect.DeepEqual(opts.SizeMap, libSizesCopy) {
+					return violated("C07/input-sizes-modified", fmt.Sprintf("the caller's size map changed: now %v, was %v", opts.SizeMap, libSizesCopy))
 				}
 				enc := core.Canon(res.Layout)
 				if first == "" {
